@@ -399,6 +399,16 @@ type named struct{ ID int }
 
 func (named) EventTypeName() string { return "c09.named.v1" }
 
+// unnamed reports the empty string as its event name, oddName one full of separators, quotes, a NUL
+// and a newline: unusual, legal, and stored verbatim.
+type unnamed struct{ ID int }
+
+func (unnamed) EventTypeName() string { return "" }
+
+type oddName struct{ ID int }
+
+func (oddName) EventTypeName() string { return "c09/odd name\x00\n\"quoted\" → ünï*" }
+
 type versioned struct{ ID, V int }
 
 func (v versioned) EventTypeName() string { return fmt.Sprintf("c09.versioned.v%d", v.V) }
@@ -579,6 +589,8 @@ func TestC09Values(t *testing.T) {
 			roundTrip(run, bus, mem, custom{ID: i, X: r.IntN(1000)}, "custom-MarshalJSON", 1)
 		case 5:
 			roundTrip(run, bus, mem, named{ID: i}, "TypeNamer", 1)
+			roundTrip(run, bus, mem, unnamed{ID: i}, "TypeNamer-returning-the-empty-name", 2)
+			roundTrip(run, bus, mem, oddName{ID: i}, "TypeNamer-with-separators-and-control-characters", 2)
 		case 6:
 			roundTrip(run, bus, mem, versioned{ID: i, V: 1 + r.IntN(3)}, "TypeNamer-value-dependent", 2)
 		case 7:
